@@ -12,6 +12,7 @@ import Spg.Generated.AgileWords
 import Spg.Generated.AgileSyllables
 import Spg.Model.WordGen
 import Spg.Generated.Facts
+import SpgProofs.Lemmas.FactPreds
 import SpgProofs.Lemmas.C16Lists
 namespace Spg.C16
 open Spg Spg.Generated
@@ -102,14 +103,13 @@ theorem lists_counts :
     agileWordsChunks.flatten.length = agileWordsCount ∧ agileSyllablesChunks.flatten.length = agileSyllablesCount :=
   C16Lists.lists_counts
 
-/-- The built-in data lives in exactly these package-level variables (two lists, two budget
-variables, seven presets, two class tables). A further package-level variable — say a shared,
-mutable copy of a class — changes this regenerated list. -/
-theorem builtin_state :
-    Facts.packageVars.map (·.1) =
-      ["AgileSyllables", "AgileWords", "MaxFailRate", "MaxTrials", "SFDigits1", "SFDigits2",
-       "SFDigitsNoAmbiguous1", "SFDigitsNoAmbiguous2", "SFDigitsSymbols", "SFNone", "SFSymbols",
-       "charTypeByFlag", "charTypeNamesByFlag"] := by decide
+/-- The package-level state behind the built-ins: plain data (the two lists, the two class
+tables, the two budget variables) that nothing assigns after initialisation, and the seven
+presets. A further stateful package-level variable — a shared, mutable default recipe, a mutable
+copy of a class behind a pointer — falsifies this; so does any assignment to a package-level
+variable. -/
+theorem builtin_state : FactPreds.packageStateOK = true ∧
+    (Facts.sharedWrites.filter fun w => w.2.2 == "pkgvar") = [] := by decide
 
 /-! ### Separator presets: what each documented recipe yields -/
 
